@@ -2,6 +2,7 @@ package conf
 
 import (
 	"fmt"
+	"math"
 	"reflect"
 	"strconv"
 	"time"
@@ -85,7 +86,11 @@ var DefaultCoercers = struct {
 		case int:
 			return v, nil
 		case int64:
-			return int(v), nil
+			n := int(v)
+			if int64(n) != v {
+				return nil, fmt.Errorf("failed to coerce int64 to int: %d is out of range", v)
+			}
+			return n, nil
 		case int32:
 			return int(v), nil
 		case string:
@@ -95,7 +100,12 @@ var DefaultCoercers = struct {
 			}
 			return convVal, nil
 		case float64:
-			return int(v), nil
+			// truncates toward zero. NaN, +-Inf and values outside the range of int have no int value
+			t := math.Trunc(v)
+			if !(t >= math.MinInt && t < -math.MinInt) {
+				return nil, fmt.Errorf("failed to coerce float64 to int: %v is out of range", v)
+			}
+			return int(t), nil
 		case bool:
 			if v {
 				return 1, nil
